@@ -704,7 +704,12 @@ impl<'a> Searcher<'a> {
                                         if file_type.is_symlink() {
                                             if let Ok(resolved) = std::fs::read_link(&path) {
                                                 ok = true;
-                                                path = resolved;
+                                                // a relative target is relative to the directory of the link
+                                                path = if resolved.is_relative() {
+                                                    dir.join(resolved)
+                                                } else {
+                                                    resolved
+                                                };
                                             }
                                         } else if file_type.is_dir() {
                                             ok = true;
